@@ -3,6 +3,7 @@ import BobEM.Props.C05
 import BobEM.Props.C08
 import BobEM.Props.C11
 import BobEM.Lemmas.KMeansDescent
+import BobEM.Lemmas.KMeansSim
 import BobEM.Model.IVector
 import BobEM.Lemmas.FATrainIdent
 import BobEM.Lemmas.IVectorIdent
@@ -108,41 +109,113 @@ theorem C15_stats_equivariant (a b : Fin D → ℝ) (ha : ∀ d, a d ≠ 0) (p :
     exact sum_shift xs (logLik p) (logJac a)
   · simp
 
-/-- **ML M-step equivariance** (no count floor active; `cfg'` is `cfg` with the floors transformed with
-the features): new means `a μ' + b`, new variances `a² v'`, unchanged weights -/
+/-- **ML M-step equivariance** (`cfg'` is `cfg` with the floors transformed with the features; the count
+threshold is positive, as in the code where it defaults to machine epsilon): new means `a μ' + b`, new
+variances `a² v'`, unchanged weights — **whether or not a component is starved**: a component below the
+count threshold keeps its mean and variance (repair D25; `C15_ml_starved_old_refuted` shows that the
+pinned commit's update, which divided the partial sum by the threshold, is not shift-equivariant) -/
 theorem C15_ml_equivariant (a b : Fin D → ℝ) (cfg cfg' : MlCfg C D ℝ) (p : Params C D ℝ)
-    (st : Stats C D ℝ) (t K : ℝ) (hcount : ∀ c, cfg.countThr ≤ st.n c) (hpos : ∀ c, 0 < st.n c)
+    (st : Stats C D ℝ) (t K : ℝ) (hthr : 0 < cfg.countThr)
     (h1 : cfg'.updMeans = cfg.updMeans) (h2 : cfg'.updVars = cfg.updVars) (h3 : cfg'.updWeights = cfg.updWeights)
     (h4 : cfg'.countThr = cfg.countThr) (h5 : ∀ c d, cfg'.varFloor c d = a d * a d * cfg.varFloor c d) :
     mlMStep cfg' (affP a b p) (affS a b st K) t = affP a b (mlMStep cfg p st t) := by
-  have htn : ∀ c, max (st.n c) cfg.countThr = st.n c := fun c => max_eq_left (hcount c)
   have hmeans : ∀ c d, mlMeans cfg' (affP a b p) (affS a b st K) c d = a d * mlMeans cfg p st c d + b d := by
     intro c d
-    simp only [mlMeans, h1, h4, affS, affP, htn]
-    split_ifs
-    · have := (hpos c).ne'; field_simp
-    · rfl
-  have hraw : ∀ c d, mlRawVar cfg' (affP a b p) (affS a b st K) c d = a d * a d * mlRawVar cfg p st c d := by
-    intro c d
+    simp only [mlMeans, h1, h4, affS, affP]
+    by_cases hm : cfg.updMeans = true
+    · simp only [hm, if_true]
+      by_cases hc : st.n c < cfg.countThr
+      · simp only [if_pos hc]
+      · have hge : cfg.countThr ≤ st.n c := not_lt.mp hc
+        have hne : st.n c ≠ 0 := (lt_of_lt_of_le hthr hge).ne'
+        simp only [if_neg hc, max_eq_left hge]
+        field_simp
+    · simp only [hm]
+      rfl
+  have hraw : ∀ c d, ¬ st.n c < cfg.countThr →
+      mlRawVar cfg' (affP a b p) (affS a b st K) c d = a d * a d * mlRawVar cfg p st c d := by
+    intro c d hc
+    have hge : cfg.countThr ≤ st.n c := not_lt.mp hc
+    have hne : st.n c ≠ 0 := (lt_of_lt_of_le hthr hge).ne'
     unfold mlRawVar
     rw [hmeans]
-    simp only [affS, h4, htn]
-    have := (hpos c).ne'
+    simp only [affS, h4, max_eq_left hge]
     field_simp
     ring
   unfold mlMStep
-  simp only [h2, h3, h4, affS, htn]
+  simp only [h2, h3, h4, affS]
   simp only [affP]
   congr 1
   · funext c d; exact hmeans c d
   · by_cases huv : cfg.updVars = true
     · funext c d
       simp only [huv, if_true, h5]
-      have := hraw c d
-      simp only [affS, affP] at this
-      rw [this, ← mul_max_of_nonneg _ _ (mul_self_nonneg (a d))]
+      by_cases hc : st.n c < cfg.countThr
+      · rw [if_pos hc, if_pos hc, ← mul_max_of_nonneg _ _ (mul_self_nonneg (a d))]
+      · have := hraw c d hc
+        simp only [affS, affP] at this
+        rw [if_neg hc, if_neg hc, this, ← mul_max_of_nonneg _ _ (mul_self_nonneg (a d))]
     · simp only [huv]
       rfl
+
+/-- the pinned commit's means update (`sum_px / max(n, thr)` also for a starved component) is **not**
+shift-equivariant: one feature, a component with no data (`n = 0`, `sum_px = 0`) at mean 3, threshold
+1, shift `b = 10`: it lands on the origin in both coordinate systems instead of on `13` (defect D25) -/
+theorem C15_ml_starved_old_refuted :
+    ∃ (cfg : MlCfg 1 1 ℝ) (p : Params 1 1 ℝ) (st : Stats 1 1 ℝ) (a b : Fin 1 → ℝ) (K : ℝ), (∀ d, a d ≠ 0) ∧
+      mlMeansOld cfg (affP a b p) (affS a b st K) 0 0 ≠ a 0 * mlMeansOld cfg p st 0 0 + b 0 := by
+  refine ⟨⟨true, false, false, 1, fun _ _ => 0⟩, ⟨fun _ => 1, fun _ _ => 3, fun _ _ => 1⟩,
+    ⟨fun _ => 0, fun _ _ => 0, fun _ _ => 0, 0, 0⟩, fun _ => 1, fun _ => 10, 0, fun _ => one_ne_zero, ?_⟩
+  simp [mlMeansOld, affP, affS]
+
+/-- an ML M-step leaves every variance positive when the floors are (or the variances are frozen) -/
+theorem mlMStep_var_pos (cfg : MlCfg C D ℝ) (p : Params C D ℝ) (st : Stats C D ℝ) (t : ℝ)
+    (hfl : ∀ c d, 0 < cfg.varFloor c d) (hv : ∀ c d, 0 < p.variances c d) (c : Fin C) (d : Fin D) :
+    0 < (mlMStep cfg p st t).variances c d := by
+  unfold mlMStep
+  by_cases h : cfg.updVars = true
+  · simp only [h, if_true]
+    exact lt_of_lt_of_le (hfl c d) (le_max_left _ _)
+  · simp only [h]
+    exact hv c d
+
+/-- **ML training is equivariant for any number of iterations**: `k` EM iterations from the transformed
+start on the transformed data (floors transformed like variances) give the transformed model — starved
+components included (they keep their parameters, D25) -/
+theorem C15_ml_training_equivariant (a b : Fin D → ℝ) (ha : ∀ d, a d ≠ 0) (cfg cfg' : MlCfg (C+1) D ℝ)
+    (h1 : cfg'.updMeans = cfg.updMeans) (h2 : cfg'.updVars = cfg.updVars) (h3 : cfg'.updWeights = cfg.updWeights)
+    (h4 : cfg'.countThr = cfg.countThr) (h5 : ∀ c d, cfg'.varFloor c d = a d * a d * cfg.varFloor c d)
+    (hfl : ∀ c d, 0 < cfg.varFloor c d) (p0 : Params (C+1) D ℝ) (hv0 : ∀ c d, 0 < p0.variances c d)
+    (xs : List (Fin D → ℝ)) (c0 c0' : ℝ) (k : ℕ) (hthr : 0 < cfg.countThr) :
+    (traj (gmmMlIter cfg' (xs.map (affX a b))) (affP a b p0) c0' k).1 = affP a b (traj (gmmMlIter cfg xs) p0 c0 k).1 := by
+  suffices H : (traj (gmmMlIter cfg' (xs.map (affX a b))) (affP a b p0) c0' k).1 = affP a b (traj (gmmMlIter cfg xs) p0 c0 k).1
+      ∧ ∀ c d, 0 < (traj (gmmMlIter cfg xs) p0 c0 k).1.variances c d from H.1
+  induction k with
+  | zero => exact ⟨rfl, hv0⟩
+  | succ k ih =>
+    obtain ⟨e, hv⟩ := ih
+    set pk := (traj (gmmMlIter cfg xs) p0 c0 k).1 with hpk
+    constructor
+    · simp only [traj, gmmMlIter, e, ← hpk]
+      rw [C15_stats_equivariant a b ha pk hv xs]
+      exact C15_ml_equivariant a b cfg cfg' pk (eStep pk xs) _ _ hthr h1 h2 h3 h4 h5
+    · intro c d
+      simp only [traj, gmmMlIter, ← hpk]
+      exact mlMStep_var_pos cfg pk _ _ hfl hv c d
+
+/-- along such a run the reported criterion (average log-likelihood of the entering parameters) is the
+original one shifted by the constant `Σ_d log|a_d|` — the quantity finding D24 is about -/
+theorem C15_ml_criterion_shift (a b : Fin D → ℝ) (ha : ∀ d, a d ≠ 0) (cfg' : MlCfg (C+1) D ℝ) (p : Params (C+1) D ℝ)
+    (hv : ∀ c d, 0 < p.variances c d) (xs : List (Fin D → ℝ)) (hne : xs ≠ []) (cfg : MlCfg (C+1) D ℝ) :
+    (gmmMlIter cfg' (xs.map (affX a b)) (affP a b p)).2 = (gmmMlIter cfg xs p).2 - logJac a := by
+  have hlen : (xs.length : ℝ) ≠ 0 := by
+    have := List.length_pos_of_ne_nil hne
+    positivity
+  unfold gmmMlIter
+  rw [C15_stats_equivariant a b ha p hv xs]
+  have hof : ∀ n : ℕ, (Transc.ofNat n : ℝ) = n := fun _ => rfl
+  simp only [affS, eStep, hof]
+  field_simp
 
 /-- **MAP (Spec) equivariance of means and variances** for a component with evidence -/
 theorem C15_map_equivariant_spec (a b : Fin D → ℝ) (cfg : MapCfg C D ℝ) (ubm p : Params C D ℝ) (st : Stats C D ℝ) (K : ℝ)
@@ -169,6 +242,65 @@ theorem C15_map_equivariant_spec (a b : Fin D → ℝ) (cfg : MapCfg C D ℝ) (u
   have := hpos.ne'
   field_simp
   ring
+
+/-- **MAP M-step with the variances not adapted (the usual means / weights adaptation) is equivariant**,
+for every component, with or without evidence (`sq` is irrelevant: the variance blend is not used) -/
+theorem C15_map_mstep_equivariant (sq : ℝ → ℝ) (a b : Fin D → ℝ) (cfg : MapCfg C D ℝ) (ubm p : Params C D ℝ) (st : Stats C D ℝ)
+    (t K : ℝ) (huv : cfg.updVars = false) (hthr : 0 < cfg.countThr) :
+    mapMStepG sq cfg (affP a b ubm) (affP a b p) (affS a b st K) t = affP a b (mapMStepG sq cfg ubm p st t) := by
+  have hal : ∀ c, mapAlpha cfg (affS a b st K) c = mapAlpha cfg st c := fun c => by simp [mapAlpha, affS]
+  have hn : (affS a b st K).n = st.n := rfl
+  have hpx : ∀ c d, (affS a b st K).sumPx c d = a d * st.sumPx c d + b d * st.n c := fun _ _ => rfl
+  have hw : (affP a b ubm).weights = ubm.weights := rfl
+  have hpw : (affP a b p).weights = p.weights := rfl
+  have hum : ∀ c d, (affP a b ubm).means c d = a d * ubm.means c d + b d := fun _ _ => rfl
+  have hpm : ∀ c d, (affP a b p).means c d = a d * p.means c d + b d := fun _ _ => rfl
+  have hW : mapWeights cfg (affP a b ubm) (affP a b p) (affS a b st K) t = mapWeights cfg ubm p st t := by
+    have hR : mapRawWeight cfg (affP a b ubm) (affS a b st K) t = mapRawWeight cfg ubm st t := by
+      funext c; simp only [mapRawWeight, hal, hn, hw]
+    simp only [mapWeights, hR, hpw]
+  have hM : ∀ c d, mapMeans cfg (affP a b ubm) (affP a b p) (affS a b st K) c d = a d * mapMeans cfg ubm p st c d + b d := by
+    intro c d
+    simp only [mapMeans, hal, hn, hpx, hum]
+    by_cases hm : cfg.updMeans = true
+    · simp only [hm, if_true]
+      by_cases hc : st.n c < cfg.countThr
+      · simp only [if_pos hc]
+      · have hge : cfg.countThr ≤ st.n c := not_lt.mp hc
+        have hne : st.n c ≠ 0 := (lt_of_lt_of_le hthr hge).ne'
+        simp only [if_neg hc]
+        field_simp
+        ring
+    · simp only [hm]
+      exact hpm c d
+  unfold mapMStepG
+  rw [hW]
+  simp only [huv, Bool.false_eq_true, if_false]
+  simp only [affP, Params.mk.injEq, true_and, and_true]
+  funext c d
+  exact hM c d
+
+/-- **MAP training (means / weights adaptation) is equivariant for any number of iterations** -/
+theorem C15_map_training_equivariant (sq : ℝ → ℝ) (a b : Fin D → ℝ) (ha : ∀ d, a d ≠ 0) (cfg : MapCfg (C+1) D ℝ)
+    (ubm p0 : Params (C+1) D ℝ) (huv : cfg.updVars = false) (hthr : 0 < cfg.countThr) (hv0 : ∀ c d, 0 < p0.variances c d)
+    (xs : List (Fin D → ℝ)) (c0 c0' : ℝ) (k : ℕ) :
+    (traj (gmmMapIter sq cfg (affP a b ubm) (xs.map (affX a b))) (affP a b p0) c0' k).1
+      = affP a b (traj (gmmMapIter sq cfg ubm xs) p0 c0 k).1 := by
+  suffices H : (traj (gmmMapIter sq cfg (affP a b ubm) (xs.map (affX a b))) (affP a b p0) c0' k).1
+        = affP a b (traj (gmmMapIter sq cfg ubm xs) p0 c0 k).1
+      ∧ (traj (gmmMapIter sq cfg ubm xs) p0 c0 k).1.variances = p0.variances from H.1
+  induction k with
+  | zero => exact ⟨rfl, rfl⟩
+  | succ k ih =>
+    obtain ⟨e, hvar⟩ := ih
+    set pk := (traj (gmmMapIter sq cfg ubm xs) p0 c0 k).1 with hpk
+    have hv : ∀ c d, 0 < pk.variances c d := fun c d => by rw [hvar]; exact hv0 c d
+    constructor
+    · simp only [traj, gmmMapIter, e, ← hpk]
+      rw [C15_stats_equivariant a b ha pk hv xs]
+      exact C15_map_mstep_equivariant sq a b cfg ubm pk (eStep pk xs) _ _ huv hthr
+    · simp only [traj, gmmMapIter, ← hpk, mapMStepG, huv, Bool.false_eq_true, if_false]
+      exact hvar
 
 /-- the pinned commit's variance blend is **not** equivariant (same root cause as C05's finding):
 witness `a = 2`, `b = 0` on the D3 data -/
@@ -265,6 +397,31 @@ theorem C15_kmeans_rotation (Q : Matrix (Fin D) (Fin D) ℝ) (hQ : Qᵀ * Q = 1)
     intro j; rw [Matrix.mulVec_sub]; rfl
   simp only [hsub, h]
   simp [Pi.sub_apply]
+
+/-- **a whole k-means fit follows a uniform scaling with a shift**: from the transformed initial
+centroids on the transformed data (any chunking, any threshold, any iteration limit) `fit` performs the
+same number of iterations and returns the transformed centroids; empty clusters keep their (transformed)
+centroid, the relative stopping test does not see the factor `s²` of the criterion -/
+theorem C15_kmeans_fit_scale_shift {K : ℕ} (s : ℝ) (hs : s ≠ 0) (t : Fin D → ℝ) (thr : Option ℝ) (fuel : ℕ) (c0 : ℝ)
+    (cent0 : Fin (K+1) → Fin D → ℝ) (blocks : List (List (Fin D → ℝ))) :
+    kFit thr fuel (s * s * c0) (fun k d => s * cent0 k d + t d) (blocks.map fun b => b.map fun x d => s * x d + t d)
+      = ((fun k d => s * (kFit thr fuel c0 cent0 blocks).1 k d + t d), (kFit thr fuel c0 cent0 blocks).2) :=
+  kFit_sim (KSim.scaleShift s hs t) thr fuel c0 cent0 blocks
+
+/-- **… and any rotation / reflection** -/
+theorem C15_kmeans_fit_rotation {K : ℕ} (Q : Matrix (Fin D) (Fin D) ℝ) (hQ : Qᵀ * Q = 1) (thr : Option ℝ) (fuel : ℕ) (c0 : ℝ)
+    (cent0 : Fin (K+1) → Fin D → ℝ) (blocks : List (List (Fin D → ℝ))) :
+    kFit thr fuel c0 (fun k => Q.mulVec (cent0 k)) (blocks.map fun b => b.map Q.mulVec)
+      = ((fun k => Q.mulVec ((kFit thr fuel c0 cent0 blocks).1 k)), (kFit thr fuel c0 cent0 blocks).2) := by
+  have h := kFit_sim (KSim.rotation Q hQ) thr fuel c0 cent0 blocks
+  simpa [KSim.rotation] using h
+
+/-- one iteration, for the record: centroids mapped, criterion times `s²` -/
+theorem C15_kmeans_iter_scale_shift {K : ℕ} (s : ℝ) (hs : s ≠ 0) (t : Fin D → ℝ)
+    (cent : Fin (K+1) → Fin D → ℝ) (blocks : List (List (Fin D → ℝ))) :
+    kIter (blocks.map fun b => b.map fun x d => s * x d + t d) (fun k d => s * cent k d + t d)
+      = ((fun k d => s * (kIter blocks cent).1 k d + t d), s * s * (kIter blocks cent).2) :=
+  (KSim.scaleShift s hs t).kIter_sim blocks cent
 
 /-! ### ISV / JFA enrolment and i-vectors under a per-feature rescaling and shift -/
 
@@ -675,6 +832,43 @@ theorem C15_isv_training_equivariant (a b : Fin D → ℝ) (ha : ∀ d, a d ≠ 
   exact iter_aff a b _ (fun M => stepIsv M cl) M0.s (fun M hM => stepIsv_aff a b ha M (by rw [hM]; exact hs) cl) (fun M => rfl) k M0 rfl
 end TrainAffine
 
+/-! ### the stopping tests under a change of units (finding D24)
+
+A change of units `x ↦ a x + b` shifts every log-likelihood, hence the average log-likelihood that
+`GMMMachine.fit` reports, by the constant `K = Σ_d log|a_d|` (`C15_loglik_shift`).  `fit` stops on
+`|prev − cur| / |prev| ≤ thr`: the numerator is unit-free, the denominator is not.  The k-means
+criterion scales by `s²`, which cancels. -/
+section StopRule
+
+/-- the absolute change of the criterion is unit-free -/
+theorem C15_abs_change_unit_free (prev cur K : ℝ) : (prev - K) - (cur - K) = prev - cur := by ring
+
+/-- **the GMM stopping test depends on the units** (relative change of a quantity defined up to an
+additive constant): with threshold `0.01`, criterion `-2 → -1.9` does not stop, the same run observed in
+units that shift the log-likelihood by `18` (e.g. three features in units 400 times smaller) does. -/
+theorem C15_gmm_stop_rule_depends_on_units :
+    ∃ thr prev cur K : ℝ, convStop (some thr) prev cur = false ∧ convStop (some thr) (prev - K) (cur - K) = true := by
+  refine ⟨0.01, -2, -1.9, 18, ?_, ?_⟩
+  · simp only [convStop, relChange, absv, decide_eq_false_iff_not, not_le]
+    norm_num
+  · simp only [convStop, relChange, absv, decide_eq_true_eq]
+    norm_num
+
+/-- **the k-means stopping test is unit-free**: a similarity with scale `s ≠ 0` multiplies every
+distortion by `s²` (`C15_kmeans_scale_shift`), and the relative change does not see it -/
+theorem C15_kmeans_stop_rule_unit_free (s : ℝ) (hs : s ≠ 0) (thr : Option ℝ) (prev cur : ℝ) :
+    convStop thr (s * s * prev) (s * s * cur) = convStop thr prev cur := by
+  have hss : s * s ≠ 0 := mul_ne_zero hs hs
+  have : (s * s * prev - s * s * cur) / (s * s * prev) = (prev - cur) / prev := by
+    rw [← mul_sub, mul_div_mul_left _ _ hss]
+  cases thr with
+  | none => rfl
+  | some t =>
+    have e : relChange (s * s * prev) (s * s * cur) = relChange prev cur := by unfold relChange; rw [this]
+    unfold convStop
+    rw [e]
+end StopRule
+
 /-! ### i-vector training (fixed covariances) follows the features -/
 section IVAffine
 open BobEM.IV
@@ -832,4 +1026,96 @@ theorem C15_ivector_mstep_sigma_equivariant (a b : Fin D → ℝ) (m : IV.Machin
       · simp only [sumFin_eq, mul_zero, Finset.sum_const_zero, sub_zero]
         ring
     rw [e, if_neg (hin' c d), if_neg (hin c d)]
+
+/-! #### covariance update with the floor transformed alongside (uniform scales: the floor is one scalar) -/
+
+theorem iv_eStep_nij_aff (a b : Fin D → ℝ) (m : IV.Machine C D R ℝ) (l : List (IV.GStat C D ℝ)) :
+    (IV.eStep (affIV a b m) (l.map (affG a b))).nij = (IV.eStep m l).nij := by
+  funext c
+  rw [eStep_nij, eStep_nij, List.map_map]
+  rfl
+
+/-- the unclamped covariance estimate scales like the squared features -/
+theorem iv_raw_aff (a : Fin D → ℝ) (sig : Fin C → Fin D → ℝ) (st : IV.Stats C D R ℝ) (c : Fin C) (d : Fin D) :
+    (if Transc.isZero (st.nij c) then a d * a d * sig c d
+        else (a d * a d * st.snorm c d - sumFin R fun t => a d * st.fsw c d t *
+          (if IV.anyNonzero (st.nsw2 c) then sumFin R fun u => LinAlg.inv R (fun x y => st.nsw2 c y x) t u * (a d * st.fsw c d u) else 0)) / st.nij c)
+      = a d * a d * (if Transc.isZero (st.nij c) then sig c d
+        else (st.snorm c d - sumFin R fun t => st.fsw c d t *
+          (if IV.anyNonzero (st.nsw2 c) then sumFin R fun u => LinAlg.inv R (fun x y => st.nsw2 c y x) t u * st.fsw c d u else 0)) / st.nij c) := by
+  split_ifs with hz hnz
+  · rfl
+  · simp only [sumFin_eq]
+    have hsum : (∑ t, a d * st.fsw c d t * ∑ u, LinAlg.inv R (fun x y => st.nsw2 c y x) t u * (a d * st.fsw c d u))
+        = a d * a d * ∑ t, st.fsw c d t * ∑ u, LinAlg.inv R (fun x y => st.nsw2 c y x) t u * st.fsw c d u := by
+      rw [Finset.mul_sum]
+      refine Finset.sum_congr rfl fun t _ => ?_
+      rw [Finset.mul_sum, Finset.mul_sum, Finset.mul_sum]
+      refine Finset.sum_congr rfl fun u _ => ?_
+      ring
+    rw [hsum]
+    ring
+  · simp only [sumFin_eq, mul_zero, Finset.sum_const_zero, sub_zero]
+    ring
+
+/-- **one M-step with covariance update, floor active or not**, under a uniform scale `s` and any shift:
+with the floor taken to `s² · floor` the new machine is the transformed one -/
+theorem iv_mStep_sigma_uniform (s : ℝ) (hs0 : s ≠ 0) (b : Fin D → ℝ) (m : IV.Machine C D R ℝ) (st st' : IV.Stats C D R ℝ) (floor : ℝ)
+    (h1 : st'.nsw2 = st.nsw2) (h2 : st'.fsw = fun c d t => s * st.fsw c d t)
+    (h3 : st'.snorm = fun c d => s * s * st.snorm c d) (h4 : st'.nij = st.nij) :
+    IV.mStep (affIV (fun _ => s) b m) st' true (s * s * floor) = affIV (fun _ => s) b (IV.mStep m st true floor) := by
+  have hss : 0 < s * s := mul_self_pos.mpr hs0
+  simp only [IV.mStep, h1, h2, h3, h4, affIV, IV.Machine.mk.injEq, true_and, if_true]
+  constructor
+  · funext c d t
+    split_ifs
+    · simp only [sumFin_eq, Finset.mul_sum]
+      exact Finset.sum_congr rfl fun u _ => by ring
+    · simp
+  · funext c d
+    rw [iv_raw_aff (fun _ => s) m.sigma st c d]
+    by_cases h : (if Transc.isZero (st.nij c) then m.sigma c d
+        else (st.snorm c d - sumFin R fun t => st.fsw c d t *
+          (if IV.anyNonzero (st.nsw2 c) then sumFin R fun u => LinAlg.inv R (fun x y => st.nsw2 c y x) t u * st.fsw c d u else 0)) / st.nij c) < floor
+    · rw [if_pos h, if_pos (mul_lt_mul_of_pos_left h hss)]
+    · rw [if_neg h, if_neg (fun h' => h (lt_of_mul_lt_mul_left h' hss.le))]
+
+/-- after an M-step with covariance update and a positive floor every covariance entry is positive -/
+theorem iv_mStep_sigma_pos (m : IV.Machine C D R ℝ) (st : IV.Stats C D R ℝ) (floor : ℝ) (hfl : 0 < floor) (c : Fin C) (d : Fin D) :
+    0 < (IV.mStep m st true floor).sigma c d := by
+  have key : ∀ raw : ℝ, 0 < (if raw < floor then floor else raw) := fun raw => by
+    split_ifs with h
+    · exact hfl
+    · exact lt_of_lt_of_le hfl (not_lt.mp h)
+  simp only [IV.mStep, if_true]
+  exact key _
+
+theorem iv_fit_sigma_ne (m0 : IV.Machine C D R ℝ) (hs : ∀ c d, m0.sigma c d ≠ 0) (parts : List (List (IV.GStat C D ℝ)))
+    (floor : ℝ) (hfl : 0 < floor) (k : ℕ) (c : Fin C) (d : Fin D) : (IV.fit m0 parts true floor k).sigma c d ≠ 0 := by
+  cases k with
+  | zero => simpa [IV.fit, iv_materialize_eq] using hs c d
+  | succ k =>
+    simp only [IV.fit, IV.iterate, iv_materialize_eq]
+    exact (iv_mStep_sigma_pos _ _ floor hfl c d).ne'
+
+/-- **i-vector training with covariance update is equivariant** under any uniform scale `s ≠ 0` and any
+shift `b`, the scalar `variance_floor` being transformed like a variance (`s² · floor`): for every
+partitioning of the statistics and every number of iterations, whether or not the floor clamps on the way -/
+theorem C15_ivector_training_sigma_equivariant (s : ℝ) (hs0 : s ≠ 0) (b : Fin D → ℝ) (m0 : IV.Machine C D R ℝ)
+    (hs : ∀ c d, m0.sigma c d ≠ 0) (parts : List (List (IV.GStat C D ℝ))) (floor : ℝ) (hfl : 0 < floor) (k : ℕ) :
+    IV.fit (affIV (fun _ => s) b m0) (parts.map fun l => l.map (affG (fun _ => s) b)) true (s * s * floor) k
+      = affIV (fun _ => s) b (IV.fit m0 parts true floor k) := by
+  induction k with
+  | zero => simp [IV.fit, iv_materialize_eq]
+  | succ k ih =>
+    simp only [IV.fit, IV.iterate, iv_materialize_eq, ih]
+    set m := IV.fit m0 parts true floor k with hm
+    have hsm : ∀ c d, m.sigma c d ≠ 0 := fun c d => by rw [hm]; exact iv_fit_sigma_ne m0 hs parts floor hfl k c d
+    rw [eStep_partition, eStep_partition]
+    have hflat : (parts.map fun l => l.map (affG (fun _ => s) b)).flatten = parts.flatten.map (affG (fun _ => s) b) := by
+      rw [List.map_flatten]
+    rw [hflat]
+    obtain ⟨e1, e2⟩ := iv_eStep_aff (fun _ => s) b (fun _ => hs0) m hsm parts.flatten
+    exact iv_mStep_sigma_uniform s hs0 b m _ _ floor e1 e2
+      (by funext c d; exact iv_eStep_snorm_aff (fun _ => s) b m parts.flatten c d) (iv_eStep_nij_aff (fun _ => s) b m parts.flatten)
 end IVAffine
